@@ -277,6 +277,21 @@ theorem PRoot_of_NRoot {t : Expr} (h : NRoot t = true) (hb : hasBadPattern t = f
 
 end NF
 
+mutual
+theorem Expr.beq_refl : ∀ x : Expr, x.beq x = true
+  | .axis .. => by simp [Expr.beq]
+  | .flat i _ _ => by simp [Expr.beq, Expr.beq_refl i]
+  | .brackets i _ _ => by simp [Expr.beq, Expr.beq_refl i]
+  | .ellipsis i _ _ _ => by simp [Expr.beq, Expr.beq_refl i]
+  | .concat cs _ _ => by simp [Expr.beq, beqL_refl cs]
+  | .list cs _ _ => by simp [Expr.beq, beqL_refl cs]
+  | .args cs _ _ => by simp [Expr.beq, beqL_refl cs]
+  | .op cs _ _ => by simp [Expr.beq, beqL_refl cs]
+theorem beqL_refl : ∀ cs : List Expr, beqL cs cs = true
+  | [] => rfl
+  | c :: cs => by simp [beqL, Expr.beq_refl c, beqL_refl cs]
+end
+
 open NF in
 /-- Every result of `parseOp` that is not `Excluded` is `Printable`. -/
 theorem printable_of_parseOp (text : Str) (t : Expr) (h : parseOp text = .ok t) (hx : Excluded t = false) :
